@@ -54,7 +54,13 @@ man = {
     },
     "engines": [
         {"name": "vlib", "path": "vlib/", "serves_properties": [c["property_id"] for c in checks],
-         "kind_free_text": "runner: Hypothesis parts + exhaustive enumeration parts, sharded over processes, finding keys, replay files, evidence writer"},
+         "kind_free_text": "runner: Hypothesis parts + exhaustive enumeration parts, sharded over processes, finding keys, replay files, regressions replayed first, evidence writer"},
+        {"name": "spec", "path": "spec/", "serves_properties": [c["property_id"] for c in checks if c["engine"] in ("codec", "proto", "cql", "models")],
+         "kind_free_text": "independent reference models written from the protocol/Cassandra specifications (value codec, protocol frames, v5 segments, murmur3, replica placement, retry tables, CQL lexer/term parser/DML interpreter, civil calendar, time-UUID order); import nothing from cassandra.*"},
+        {"name": "sim", "path": "sim/", "serves_properties": [c["property_id"] for c in checks if c["engine"] == "sim"],
+         "kind_free_text": "deterministic world: real Cluster/Session/pools/ResponseFuture over an in-memory Connection subclass, fake nodes, one virtual event loop, virtual threads (greenlets) with virtual Lock/Condition/Event/time and a schedule tape drawn by Hypothesis"},
+        {"name": "cybuild", "path": "build/", "serves_properties": [c["property_id"] for c in checks if c["engine"] == "cybuild"],
+         "kind_free_text": "out-of-tree Cython build of the current /repo tree into /var/tmp (removed at exit) for the compiled-vs-pure differential"},
     ],
     "checks": checks,
     "not_applicable": na,
